@@ -41,3 +41,27 @@ def leadAmp (tbl : List (List (ℝ × ℝ × ℝ))) : ℝ := ((tbl.getD 1 []).he
 def leadRate (tbl : List (List (ℝ × ℝ × ℝ))) : ℝ := leadAmp tbl / 100000000 * (180 / Real.pi) / 10
 
 end Pymeeus.Spec
+
+noncomputable section
+namespace Pymeeus.Spec
+
+/-- IAU (1976/1980) mean obliquity of the ecliptic, degrees; `T` in Julian centuries from J2000.0:
+    `23°26′21.448″ − 46.8150″ T − 0.00059″ T² + 0.001813″ T³`. -/
+def iauObliquity (T : ℝ) : ℝ :=
+  23 + 26 / 60 + 21.448 / 3600 + (-46.8150 * T - 0.00059 * T ^ 2 + 0.001813 * T ^ 3) / 3600
+
+/-- the B1950 rotation matrix of Meeus (26.?) / `Sun.rectangular_coordinates_b1950`, applied to a vector -/
+def b1950Matrix (v : ℝ × ℝ × ℝ) : ℝ × ℝ × ℝ :=
+  (0.999925702634 * v.1 + 0.012189716217 * v.2.1 + 0.000011134016 * v.2.2,
+   -0.011179418036 * v.1 + 0.917413998946 * v.2.1 - 0.397777041885 * v.2.2,
+   -0.004859003787 * v.1 + 0.397747363646 * v.2.1 + 0.917482111428 * v.2.2)
+
+/-- longitude of the ascending node of the Moon's mean orbit used by the 1980 IAU nutation theory
+    (Meeus ch. 22), in radians; `T` in Julian centuries from J2000.0 -/
+def nutationNode (T : ℝ) : ℝ :=
+  (125.04452 + T * (-1934.136261 + T * (0.0020708 + T / 450000))) * (Real.pi / 180)
+
+/-- squared Euclidean norm -/
+def normSq (v : ℝ × ℝ × ℝ) : ℝ := v.1 ^ 2 + v.2.1 ^ 2 + v.2.2 ^ 2
+
+end Pymeeus.Spec
